@@ -130,6 +130,8 @@ def sym_returns(fi, what):
             if isinstance(s, ast.Return):
                 emit(subst(s.value, env) if s.value is not None else ast.Constant(value=None), guards, s)
                 return
+            if isinstance(s, ast.Raise):
+                return      # the path ends in an error: nothing is returned on it
             raise Undecided(f'{what}: `{u(s).splitlines()[0][:70]}` is outside the vocabulary of the path evaluator (assignments, if / conditional '
                             f'expressions, loops over a literal tuple, return)')
         emit(ast.Constant(value=None), guards, None)
@@ -138,12 +140,106 @@ def sym_returns(fi, what):
     return out
 
 
+def sym_iteration(body, what):
+    """[(guards, [yielded values], ends)] for every path through ONE iteration of a generator's loop body: values are over the loop
+    variable and the parameters (locals substituted); a conditional expression that is assigned or yielded forks the path;
+    `ends` is 'next' (falls through / continue) or 'stop' (break / return)."""
+    out = []
+
+    def fork(v, guards):
+        if isinstance(v, ast.IfExp):
+            return fork(v.body, guards + [(v.test, True)]) + fork(v.orelse, guards + [(v.test, False)])
+        return [(v, guards)]
+
+    def run(stmts, env, guards, ys):
+        for k, s in enumerate(stmts):
+            rest = stmts[k + 1:]
+            if _is_doc(s) or isinstance(s, ast.Pass):
+                continue
+            if isinstance(s, ast.Assign) and len(s.targets) == 1 and isinstance(s.targets[0], ast.Name):
+                for v, g in fork(subst(s.value, env), guards):
+                    run(rest, {**env, s.targets[0].id: v}, g, ys)
+                return
+            if isinstance(s, ast.Expr) and isinstance(s.value, ast.Yield) and s.value.value is not None:
+                for v, g in fork(subst(s.value.value, env), guards):
+                    run(rest, env, g, ys + [v])
+                return
+            if isinstance(s, ast.If):
+                t = subst(s.test, env)
+                run(list(s.body) + rest, env, guards + [(t, True)], ys)
+                run(list(s.orelse) + rest, env, guards + [(t, False)], ys)
+                return
+            if isinstance(s, (ast.Continue, ast.Break, ast.Return)):
+                out.append((tuple(guards), ys, 'next' if isinstance(s, ast.Continue) else 'stop'))
+                return
+            raise Undecided(f'{what}: `{u(s).splitlines()[0][:70]}` is outside the vocabulary of the iteration evaluator (assignments, if / conditional expressions, yield, continue)')
+        if len(out) >= 64:
+            raise Undecided(f'{what}: more than 64 paths')
+        out.append((tuple(guards), ys, 'next'))
+
+    run(list(body), {}, [], [])
+    return out
+
+
+def const_truth(e, env):
+    """Truth of a condition over constants and the given `text -> constant` bindings (field.name -> 'items'); None when it depends on
+    anything else."""
+    class _U(Exception):
+        pass
+
+    def val(x):
+        if u(x) in env:
+            return env[u(x)]
+        if isinstance(x, ast.Constant):
+            return x.value
+        if isinstance(x, (ast.Tuple, ast.List, ast.Set)):
+            return [val(y) for y in x.elts]
+        if isinstance(x, ast.UnaryOp) and isinstance(x.op, ast.Not):
+            return not val(x.operand)
+        if isinstance(x, ast.BoolOp):
+            vs = []
+            for y in x.values:      # short circuit: an operand that is never reached may be unknown
+                v = val(y)
+                vs.append(v)
+                if bool(v) != isinstance(x.op, ast.And):
+                    return v
+            return vs[-1]
+        if isinstance(x, ast.Compare) and len(x.ops) == 1:
+            a, b, op = val(x.left), val(x.comparators[0]), x.ops[0]
+            if isinstance(op, ast.Eq):
+                return a == b
+            if isinstance(op, ast.NotEq):
+                return a != b
+            if isinstance(op, ast.In):
+                return a in b
+            if isinstance(op, ast.NotIn):
+                return a not in b
+        raise _U()
+    try:
+        return bool(val(e))
+    except (_U, TypeError):
+        return None
+
+
 def truth(test, asg):
-    """Three-valued truth of a guard under a partial assignment of boolean names: True / False / None (unknown)."""
-    if isinstance(test, ast.Name) and test.id in asg:
-        return asg[test.id]
+    """Three-valued truth of a guard under a partial assignment: True / False / None (unknown).  `asg` maps the text of an
+    expression (a flag name, `line.strip()`) to its truthiness; x == '' / len(x) == 0 / bool(x) are read as the truthiness of x."""
+    if u(test) in asg:
+        return asg[u(test)]
     if isinstance(test, ast.Constant):
         return bool(test.value)
+    if isinstance(test, ast.Call) and u(test.func) == 'bool' and len(test.args) == 1 and not test.keywords:
+        return truth(test.args[0], asg)
+    if isinstance(test, ast.Compare) and len(test.ops) == 1:
+        l, op, r = test.left, test.ops[0], test.comparators[0]
+        is_len = lambda x: isinstance(x, ast.Call) and u(x.func) == 'len' and len(x.args) == 1 and not x.keywords     # noqa: E731
+        v = None
+        if isinstance(op, (ast.Eq, ast.NotEq)) and (is_const(r, '') or (is_len(l) and is_const(r, 0))):
+            v = truth(l.args[0] if is_len(l) else l, asg)
+            v = None if v is None else (not v if isinstance(op, ast.Eq) else v)
+        elif isinstance(op, ast.Lt) and is_const(l, 0) and is_len(r):
+            v = truth(r.args[0], asg)
+        return v
     if isinstance(test, ast.UnaryOp) and isinstance(test.op, ast.Not):
         v = truth(test.operand, asg)
         return None if v is None else not v
@@ -234,6 +330,198 @@ def range_len(fi, call, stmt):
     return a[0] if len(a) == 1 else a[1].sub(a[0])
 
 
+class _Proj(ast.NodeTransformer):
+    """(a, b)[0] -> a: a component picked out of a literal pair is that component."""
+
+    def visit_Subscript(self, n):
+        self.generic_visit(n)
+        if isinstance(n.value, (ast.Tuple, ast.List)) and isinstance(n.slice, ast.Constant) and isinstance(n.slice.value, int) and not isinstance(n.slice.value, bool) \
+                and not any(isinstance(x, ast.Starred) for x in n.value.elts) and -len(n.value.elts) <= n.slice.value < len(n.value.elts):
+            return n.value.elts[n.slice.value]
+        return n
+
+
+def _bind_target(tgt, val):
+    """{name: expression} for `tgt = val`: a tuple target takes the components of a literal tuple, or projections val[i]."""
+    if isinstance(tgt, ast.Name):
+        return {tgt.id: val}
+    if isinstance(tgt, (ast.Tuple, ast.List)) and not any(isinstance(x, ast.Starred) for x in tgt.elts):
+        env = {}
+        for k, t in enumerate(tgt.elts):
+            sub = _bind_target(t, _Proj().visit(ast.Subscript(value=copy.deepcopy(val), slice=ast.Constant(value=k), ctx=ast.Load())))
+            if sub is None:
+                return None
+            env.update(sub)
+        return env
+    return None
+
+
+ELEM = '_x'
+
+
+def _fresh(e):
+    """A copy that may be substituted into again (the element variable of an element form is meant to be replaced on composition)."""
+    e = copy.deepcopy(e)
+    for n in ast.walk(e):
+        if getattr(n, '_final', False):
+            del n._final
+    return e
+
+
+MUTATORS = ('insert', 'sort', 'reverse', 'pop', 'remove', 'clear')
+
+
+def _is_empty_list(v):
+    return (isinstance(v, ast.List) and not v.elts) or (isinstance(v, ast.Call) and u(v.func) == 'list' and not v.args and not v.keywords)
+
+
+def append_fill(fi, name, init):
+    """`name = []` (statement `init`) filled by ONE loop appending exactly one element per iteration.
+    -> (bad, loop, pos, call): `bad` lists the concrete losses of the one-to-one in-order image (conditional / second append,
+    break / continue / return in the loop, insert(), sort(), stores into the list ...); raises Undecided for shapes outside the vocabulary."""
+    calls = [c for c in calls_in(fi.node) if isinstance(c.func, ast.Attribute) and isinstance(c.func.value, ast.Name) and c.func.value.id == name]
+    # when the name is bound more than once (a parameter rebound per branch), only the calls made while this definition is the live one
+    from ..astutil import assigns_to
+    a = fi.node.args
+    if len(assigns_to(fi.node, name)) > 1 or name in [x.arg for x in a.posonlyargs + a.args + a.kwonlyargs]:
+        calls = [c for c in calls if _stmt_of(fi, c) is not None and reaching_def(fi.node, name, _stmt_of(fi, c)) is init]
+    appends = [c for c in calls if c.func.attr == 'append' and len(c.args) == 1 and not c.keywords and not isinstance(c.args[0], ast.Starred)]
+    mut = [c for c in calls if c.func.attr in MUTATORS]
+    grow = [c for c in calls if c.func.attr in ('extend', '__iadd__', '__setitem__', '__delitem__')]
+    if grow:
+        raise Undecided(f'{fi.name}: {name} is also changed through `{u(grow[0])[:60]}`')
+    stores = [n for n in ast.walk(fi.node) if isinstance(n, ast.Subscript) and isinstance(n.ctx, (ast.Store, ast.Del)) and u(n.value) == name]
+    bad = [u(c)[:70] for c in mut] + [f'{type(n.ctx).__name__.lower()} {u(n)}' for n in stores]
+    loop = pos = None
+    if len(appends) == 1:
+        pos = _stmt_of(fi, appends[0])
+        path = block_path(fi.node, pos)
+        ipath = block_path(fi.node, init)
+        owners = [o for (_, _, o) in path[1:]]
+        owners = owners[len(ipath) - 1:] if [o for (_, _, o) in ipath[1:]] == owners[:len(ipath) - 1] else None
+        if owners is None:
+            raise Undecided(f'{fi.name}: {name} is filled outside the block that creates it')
+        loops = [o for o in owners if isinstance(o, (ast.For, ast.While, ast.AsyncFor))]
+        if not (isinstance(pos, ast.Expr) and pos.value is appends[0]):
+            bad.append(f'{u(appends[0])[:70]} is not a statement of its own')
+        elif len(loops) != 1 or not isinstance(loops[0], ast.For):
+            bad.append(f'append inside {len(loops)} loops')
+        else:
+            loop = loops[0]
+            inner = owners[owners.index(loop) + 1:]
+            if inner:
+                bad.append(f'append only under `{u(inner[0]).splitlines()[0][:60]}`')
+            if any(not isinstance(o, (ast.With, ast.AsyncWith)) for o in owners[:owners.index(loop)]):
+                raise Undecided(f'{fi.name}: the loop filling {name} is nested in `{u(owners[0]).splitlines()[0][:60]}`')
+            esc = [x for x in stmts_in(loop.body) if isinstance(x, (ast.Break, ast.Continue, ast.Return))]
+            if esc:
+                bad.append(f'{[u(x) for x in esc]} in the loop: an iteration can end without an element')
+            if loop.orelse:
+                bad.append('loop has an else clause')
+    elif appends:
+        bad.append(f'{len(appends)} append calls')
+    elif not bad and not calls:
+        bad.append(f'{name} is never filled (no element is ever appended)')
+    elif not bad:
+        raise Undecided(f'{fi.name}: {name} starts empty and is filled by something other than append calls')
+    return bad, loop, pos, (appends[0] if appends else None)
+
+
+def _stmt_of(fi, node):
+    """Innermost statement containing an expression node (identity)."""
+    best = None
+    for s in stmts_in(fi.node.body):
+        hdr = [s.test] if isinstance(s, (ast.If, ast.While)) else [s.iter, s.target] if isinstance(s, (ast.For, ast.AsyncFor)) else \
+            [i.context_expr for i in s.items] if isinstance(s, (ast.With, ast.AsyncWith)) else [] if isinstance(s, (ast.Try, ast.FunctionDef, ast.ClassDef, ast.AsyncFunctionDef)) else [s]
+        if any(x is node for h in hdr for x in ast.walk(h)):
+            best = s
+    return best
+
+
+def append_elt(fi, loop, pos, call):
+    """The appended element over the loop variable: locals bound earlier in the same iteration are substituted."""
+    env = {}
+    for x in loop.body:
+        if x is pos:
+            break
+        if isinstance(x, ast.Assign) and len(x.targets) == 1 and isinstance(x.targets[0], ast.Name):
+            env[x.targets[0].id] = subst(x.value, env)
+        elif any(isinstance(t, ast.Name) and isinstance(t.ctx, ast.Store) for t in ast.walk(x)):
+            raise Undecided(f'{fi.name}: `{u(x).splitlines()[0][:60]}` binds a local inside the filling loop in a way the rule does not follow')
+    return _fresh(subst(call.args[0], env))
+
+
+def elem_form_of_def(fi, d, depth=0):
+    """Element form of the sequence a simple definition statement `name = <value>` creates (an empty list is followed into the
+    loop that fills it)."""
+    v = def_value(d)
+    if _is_empty_list(v) and isinstance(d, ast.Assign):
+        name = d.targets[0].id
+        bad, loop, pos, call = append_fill(fi, name, d)
+        if bad or loop is None:
+            return f'{name} (filled in a way that is not one element per iteration: {bad[:2]})', ast.Name(id=ELEM, ctx=ast.Load())
+        root, inner = elem_form(fi, loop.iter, loop, depth + 1)
+        env = _bind_target(loop.target, inner)
+        if env is None:
+            return u(loop.iter), ast.Name(id=ELEM, ctx=ast.Load())
+        return root, _fresh(_Proj().visit(subst(append_elt(fi, loop, pos, call), env)))
+    return elem_form(fi, v, d, depth + 1)
+
+
+def as_comprehension(fi, d):
+    """(value, statement) of a definition: `xs = []` filled by one loop with exactly one unconditional append per iteration IS the
+    comprehension [<element> for <target> in <iterable>] evaluated at that loop; any other definition is returned as it stands
+    (an empty list filled in another way stays an empty list: nothing is aligned with it)."""
+    v = def_value(d)
+    if isinstance(d, ast.Assign) and _is_empty_list(v):
+        try:
+            bad, loop, pos, call = append_fill(fi, d.targets[0].id, d)
+            if not bad and loop is not None:
+                comp = ast.ListComp(elt=append_elt(fi, loop, pos, call), generators=[ast.comprehension(target=loop.target, iter=loop.iter, ifs=[], is_async=0)])
+                return ast.copy_location(comp, loop), loop
+        except Undecided:
+            pass
+    return v, d
+
+
+def deref(fi, e, stmt):
+    """A local that names a list built by an append loop stands for the equivalent comprehension."""
+    if isinstance(e, ast.Name):
+        d = reaching_def(fi.node, e.id, stmt)
+        if d not in (None, PARAM, AMBIGUOUS) and _is_empty_list(def_value(d)):
+            v, vs = as_comprehension(fi, d)
+            if vs is not d:
+                return v, vs
+    return e, stmt
+
+
+def elem_form(fi, e, stmt, depth=0):
+    """(root, elt): `e`, evaluated at `stmt`, is an order-preserving one-to-one image of the sequence `root` (text; '?name' for a
+    local with several reaching definitions, i.e. one per input channel), and its k-th element is `elt` with _x := root[k].
+    Follows locals, list()/tuple(), comprehensions / map (tuple targets destructure the element).  Everything else - sorted(),
+    set(), a filtered comprehension, a slice ... - is its own root: alignment with anything upstream is lost there."""
+    x = ast.Name(id=ELEM, ctx=ast.Load())
+    e = _unwrap_seq(e)
+    if depth > 8:
+        return u(e), x
+    if isinstance(e, ast.Name):
+        d = reaching_def(fi.node, e.id, stmt) if stmt is not None else None
+        if d is PARAM:
+            return e.id, x
+        v = def_value(d) if d not in (None, AMBIGUOUS) else None
+        if v is None:
+            return f'?{e.id}', x
+        return elem_form_of_def(fi, d, depth)
+    ef = each_form(e)
+    if ef is not None:
+        root, inner = elem_form(fi, ef[0], stmt, depth + 1)
+        env = _bind_target(ef[1], inner)
+        if env is None:
+            return u(e), x
+        return root, _fresh(_Proj().visit(subst(ef[2], env)))
+    return u(e), x
+
+
 def check_sequence_files(ctx):
     rep, m = ctx.rep, ctx.model
     fi = m.func(f'{CM}.get_sequence_files')
@@ -244,21 +532,29 @@ def check_sequence_files(ctx):
     rep.require(len(rets) == 1, 'get_sequence_files: expected one (ids, files) return')
     r = rets[0]
     ids_e, files_e = r.value.elts
-    # ids / files definitions are shared by both branches; the branch-specific lists are paths / paths_str
-    idd = reaching_def(fi.node, ids_e.id, r) if isinstance(ids_e, ast.Name) else None
-    fld = reaching_def(fi.node, files_e.id, r) if isinstance(files_e, ast.Name) else None
-    idv, flv = (def_value(d) if d not in (None, PARAM, AMBIGUOUS) else None for d in (idd, fld))
-    okf = isinstance(flv, ast.Call) and m.resolve_call(fi, flv) == 'gambit.seq.SequenceFile.from_paths' and isinstance(flv.args[0], ast.Name)
-    oki = isinstance(idv, ast.ListComp) and len(idv.generators) == 1 and not idv.generators[0].ifs and isinstance(idv.generators[0].iter, ast.Name) \
-        and isinstance(idv.elt, ast.Call) and m.resolve_call(fi, idv.elt) == f'{CM}.get_file_id' and u(idv.elt.args[0]) == u(idv.generators[0].target)
-    rep.add('A1', fi.site(r), 'files = SequenceFile.from_paths(<paths>) and ids = [get_file_id(p) for p in <path strings>]: one entry per path, no filter, no sort', okf and oki,
-            expected='order-preserving one-to-one maps', found=(u(flv), u(idv)), stmt='ids/files construction')
-    rep.require(okf and oki, 'get_sequence_files: ids/files construction outside the vocabulary')
-    pv, sv = flv.args[0].id, idv.generators[0].iter.id
+    # ids / files are built once, after the channel-specific part: ids[k] = get_file_id(<label source k>), files = from_paths(<path k>).
+    # Both are followed element-wise down to the locals the channels define (one list each, or one list of pairs).
+    def bound(e):
+        # (value, statement at which it is evaluated): a local stands for the expression it was bound to
+        d = reaching_def(fi.node, e.id, r) if isinstance(e, ast.Name) else None
+        if isinstance(e, ast.Name):
+            return (def_value(d), d) if d not in (None, PARAM, AMBIGUOUS) else (None, None)
+        return e, r
+    (idv, idd), (flv, fld) = bound(ids_e), bound(files_e)
+    okf = isinstance(flv, ast.Call) and m.resolve_call(fi, flv) == 'gambit.seq.SequenceFile.from_paths' and bool(flv.args) and not isinstance(flv.args[0], ast.Starred)
+    froot, felt = elem_form(fi, flv.args[0], fld) if okf else (None, None)
+    iroot, ielt = elem_form(fi, ids_e, r) if idv is not None else (None, None)
+    oki = isinstance(ielt, ast.Call) and m.resolve_call(fi, ielt) == f'{CM}.get_file_id' and bool(ielt.args) and not isinstance(ielt.args[0], ast.Starred)
+    chan = okf and oki and froot.startswith('?') and iroot.startswith('?')
+    rep.add('A1', fi.site(r), 'files = SequenceFile.from_paths(<paths>) and ids = [get_file_id(p) for p in <path strings>]: one entry per path, no filter, no sort', okf and oki and chan,
+            expected='order-preserving one-to-one maps of the lists the channels define', found=(u(flv), u(idv), f'roots: {froot} / {iroot}'), stmt='ids/files construction')
+    rep.require(chan, 'get_sequence_files: ids/files construction outside the vocabulary')
+    pv, sv = froot[1:], iroot[1:]
+    isrc = ielt.args[0]
     fmt = get_arg(flv, 1, 'format')
     comp = get_arg(flv, 2, 'compression')
     rep.add('A1', fi.site(flv), "files are declared FASTA with content-based compression detection", is_const(fmt, 'fasta') and is_const(comp, 'auto'), expected="('fasta', 'auto')", found=(u(fmt), u(comp)), stmt='file format')
-    # per branch: both lists derive from one root
+    # per branch: path k and label source k derive from element k of one root list
     branches = {}
     for s in stmts_in(fi.node.body):
         if isinstance(s, ast.Assign) and isinstance(s.targets[0], ast.Name) and s.targets[0].id in (pv, sv):
@@ -266,29 +562,36 @@ def check_sequence_files(ctx):
             rep.require(key is not None, f'get_sequence_files: {u(s)} is not under the explicit / listfile branch')
             branches.setdefault(key, {})[s.targets[0].id] = s
     rep.floor('A1', 'input channels in get_sequence_files', len(branches), 2)
+    path_elt = {}
     for key, d in sorted(branches.items()):
         ok = pv in d and sv in d
         roots = {}
         if ok:
-            for name, s in d.items():
-                roots[name] = align.source(m, fi, s.value, s)[0]
-        want = explicit if key == 'explicit' else None
-        same = ok and len(set(roots.values())) == 1
+            forms = {name: elem_form_of_def(fi, s) for name, s in d.items()}
+            roots = {name: f[0] for name, f in forms.items()}
+            path_elt[key] = _Proj().visit(subst(felt, {ELEM: forms[pv][1]}))
+            lab = u(_Proj().visit(subst(isrc, {ELEM: forms[sv][1]})))
+            roots['label source'] = lab
+            roots['path'] = u(path_elt[key])
+        same = ok and len({roots[pv], roots[sv]}) == 1
+        # the label of element k is derived from the very path of element k (as given, or as text): never from another value
+        same = same and lab in {f(x) for x in (ELEM, u(path_elt[key])) for f in (lambda t: t, lambda t: f'str({t})', lambda t: f'os.fspath({t})')}
         if key == 'explicit':
-            same = same and set(roots.values()) == {explicit}
+            same = same and roots[pv] == explicit
         else:
             # lines = list(read_lines(listfile, skip_empty=True))
-            root = next(iter(roots.values())) if roots else ''
+            root = roots.get(pv, '')
             same = same and root.startswith('read_lines(') and listfile in root
         rep.add('A1', fi.site(d.get(pv) or d.get(sv)), f'{key} channel: paths and label strings are order-preserving images of the same list', same, expected='one common root', found=roots, stmt=f'{key} alignment')
     lp = branches.get('listfile', {}).get(pv)
     if lp is not None:
-        v = lp.value
-        okl = isinstance(v, ast.ListComp) and isinstance(v.elt, ast.BinOp) and isinstance(v.elt.op, ast.Div) and u(v.elt.left) == f'Path({ldir})' and u(v.elt.right) == u(v.generators[0].target)
-        rep.add('A1', fi.site(lp), 'list-file paths are resolved against the base directory', okl, expected=f'Path({ldir}) / line', found=u(v), stmt='listfile base dir')
-        ls = branches['listfile'].get(sv)
+        pe = path_elt.get('listfile')
+        okl = pe is not None and u(pe) == f'Path({ldir}) / {ELEM}'
+        rep.add('A1', fi.site(lp), 'list-file paths are resolved against the base directory', okl, expected=f'Path({ldir}) / line', found=u(pe) if pe is not None else u(lp.value), stmt='listfile base dir')
         rl = [c for c in calls_in(fi.node) if m.resolve_call(fi, c) == 'gambit.util.io.read_lines']
-        rep.add('A1', fi.site(rl[0] if rl else lp), 'empty lines of the list file are skipped (no phantom row)', len(rl) == 1 and is_const(get_kw(rl[0], 'skip_empty'), True), expected='skip_empty=True', found=[u(c) for c in rl], stmt='listfile lines')
+        rlp = m.func('gambit.util.io.read_lines').params()
+        ksk = rlp.index('skip_empty') if 'skip_empty' in rlp else None
+        rep.add('A1', fi.site(rl[0] if rl else lp), 'empty lines of the list file are skipped (no phantom row)', len(rl) == 1 and get_arg(rl[0], ksk, 'skip_empty') is not Ellipsis and is_const(get_arg(rl[0], ksk, 'skip_empty'), True), expected='skip_empty=True', found=[u(c) for c in rl], stmt='listfile lines')
     none_ret = [s for s in ret_tuple(fi) if s is not r]
     rep.account_returns('A1', fi, [r] + none_ret[:1], '(ids, files) pair')
     rep.add('A1', fi.site(none_ret[0] if none_ret else r), 'no input channel: (None, None)', len(none_ret) == 1 and u(none_ret[0].value) == '(None, None)', expected='return None, None', found=[u(x.value) for x in none_ret], stmt='no channel')
@@ -302,12 +605,46 @@ def check_sequence_files(ctx):
     rep.add('A1', fp.site(), 'from_paths builds one SequenceFile per path, in order, with the given format and compression', okp, expected='[cls(path, format, compression) for path in paths]', found=[u(x.value) for x in rr], stmt='from_paths')
     frl = m.func('gambit.util.io.read_lines')
     rep.functions.add(frl.qualname)
-    ys = [n for n in ast.walk(frl.node) if isinstance(n, ast.Yield)]
-    fl = [s for s in stmts_in(frl.node.body) if isinstance(s, ast.For)]
+    fl = [s for s in stmts_in(frl.node.body) if isinstance(s, (ast.For, ast.While))]
     wv = [u(i.optional_vars) for s in stmts_in(frl.node.body) if isinstance(s, ast.With) for i in s.items if i.optional_vars is not None and isinstance(i.context_expr, ast.Call)
           and u(i.context_expr.func) == 'maybe_open' and u(i.context_expr.args[0]) == frl.params()[0]]
-    okr = len(ys) == 1 and len(fl) == 1 and len(wv) == 1 and u(fl[0].iter) == wv[0] and u(ys[0].value) == u(fl[0].target)
-    rep.add('A1', frl.site(), 'read_lines yields the lines of the file in file order', okr, expected='for line in file: ... yield line', found=[u(f)[:60] for f in fl], stmt='read_lines order')
+    loop = fl[0] if len(fl) == 1 and isinstance(fl[0], ast.For) and isinstance(fl[0].target, ast.Name) and not fl[0].orelse else None
+    inside = {id(n) for n in ast.walk(loop)} if loop is not None else set()
+    stray = [u(n) for n in ast.walk(frl.node) if isinstance(n, (ast.Yield, ast.YieldFrom)) and (id(n) not in inside or isinstance(n, ast.YieldFrom))]
+    okr = loop is not None and len(wv) == 1 and u(loop.iter) == wv[0] and not stray
+    rep.add('A1', frl.site(), 'read_lines yields the lines of the file in file order', okr, expected='for line in file: ... yield line', found=[u(f).splitlines()[0][:60] for f in fl] + stray, stmt='read_lines order')
+    rep.require(okr, 'read_lines: not one loop over the opened file containing every yield')
+    # what one iteration yields, by value flow: for every setting of the two flags and for an empty / non-empty stripped line,
+    # every feasible path yields exactly the stripped line - or nothing, and that only when the line is empty and skip_empty is set
+    rep.require('strip' in frl.params() and 'skip_empty' in frl.params(), 'read_lines: parameters strip / skip_empty not found')
+    L = loop.target.id
+    forms = {'strip': f'{L}.strip()', 'rstrip_nl': f"{L}.rstrip('\\n')", 'raw': L}
+    paths = sym_iteration(loop.body, 'read_lines')
+    bad, seen = [], 0
+    for sflag in (True, False):
+        for kflag in (True, False):
+            for nonempty in (True, False):
+                asg = {'strip': sflag, 'skip_empty': kflag, forms['strip']: nonempty, forms['rstrip_nl']: nonempty}
+                want = [forms['strip' if sflag else 'rstrip_nl']] if (nonempty or not kflag) else []
+                for guards, ys, ends in paths:
+                    if not feasible(guards, asg):
+                        continue
+                    seen += 1
+                    got = [u(v) for v in ys]
+                    rep.require(all(g in forms.values() for g in got), f'read_lines: yields `{[g for g in got if g not in forms.values()][:1]}`, not the line, its strip() or its rstrip of the newline')
+                    if got != want or ends != 'next':
+                        bad.append(f'strip={sflag}, skip_empty={kflag}, {"non-empty" if nonempty else "empty"} line: yields {got}{" and stops" if ends != "next" else ""}, expected {want} (path {sorted(path_atoms(guards))})')
+    rep.add('A1', frl.site(loop), 'every line is yielded exactly once, stripped (whitespace when strip, else the newline); only an empty line is dropped, and only when skip_empty', not bad and seen >= 8,
+            expected='line.strip() if strip else line.rstrip(newline); dropped iff skip_empty and empty', found=bad[:4] or f'{len(paths)} paths', stmt='read_lines lines')
+    ds, dk = frl.param_default('strip'), frl.param_default('skip_empty')
+    rep.add('A1', frl.site(), 'read_lines keeps its declared defaults (strip=True, skip_empty=False): callers that pass nothing rely on them', is_const(ds, True) and is_const(dk, False), expected='strip=True, skip_empty=False',
+            found=(u(ds), u(dk)), stmt='read_lines defaults')
+    # the list-file call of get_sequence_files: names are stripped of surrounding whitespace and blank lines give no row
+    gsf = m.func(f'{CM}.get_sequence_files')
+    for c in [c for c in calls_in(gsf.node) if m.resolve_call(gsf, c) == 'gambit.util.io.read_lines']:
+        eff = get_arg(c, frl.params().index('strip'), 'strip')
+        eff = ds if eff is None else eff
+        rep.add('A1', gsf.site(c), 'list-file lines are read stripped (explicit argument or the default)', eff is not Ellipsis and is_const(eff, True), expected='strip=True in effect', found=u(eff) if eff is not Ellipsis else '*args', stmt='listfile strip')
 
 
 def check_labels(ctx):
@@ -448,6 +785,25 @@ def check_strip_extensions(ctx):
             found=dict(over=it, condition=sorted(cond) if cond is not None else None, match=hit, no_match=miss), stmt='strip_extensions')
 
 
+def value_cases(fi, gm, e, stmt, depth=0):
+    """[(condition atoms, value, statement)]: the expressions a value can come from and the condition under which it does - the arms
+    of a conditional expression, or the assignments of a local that is bound on several branches (each under its path condition)."""
+    if isinstance(e, ast.IfExp):
+        return [(set(atoms(e.test, pol) or ()) | at, v, vs) for pol, arm in ((True, e.body), (False, e.orelse)) for at, v, vs in value_cases(fi, gm, arm, stmt, depth + 1)]
+    if isinstance(e, ast.Name) and depth < 6:
+        d = reaching_def(fi.node, e.id, stmt)
+        if d is AMBIGUOUS:
+            out = []
+            for s in stmts_in(fi.node.body):
+                if isinstance(s, ast.Assign) and len(s.targets) == 1 and isinstance(s.targets[0], ast.Name) and s.targets[0].id == e.id:
+                    out += [(path_atoms(gm[s]) | at, v, vs) for at, v, vs in value_cases(fi, gm, *as_comprehension(fi, s), depth + 1)]
+            return out
+        v = def_value(d) if d not in (None, PARAM) else None
+        if isinstance(v, ast.IfExp):
+            return value_cases(fi, gm, v, d, depth + 1)
+    return [(set(), e, stmt)]
+
+
 def check_query_paths(ctx):
     rep, m = ctx.rep, ctx.model
     # ---- query_cmd
@@ -458,9 +814,9 @@ def check_query_paths(ctx):
     rep.require(len(qp) == 1, 'query_cmd: expected one query_parse call')
     c = qp[0]
     st = next(s for s in stmts_in(fc.node.body) if any(x is c for x in ast.walk(s)) and isinstance(s, ast.Assign))
-    files_root = align.source(m, fc, c.args[1], st)[0]
+    files_root = align.source(m, fc, *deref(fc, c.args[1], st))[0]
     labels = get_kw(c, 'file_labels')
-    labels_root = align.source(m, fc, labels, st)[0] if labels is not None else None
+    labels_root = align.source(m, fc, *deref(fc, labels, st))[0] if labels is not None else None
     rep.add('A3', fc.site(c), 'file channel: labels and files handed to query_parse are the two aligned components of one get_sequence_files call', files_root == labels_root and files_root.startswith(f'{CM}.get_sequence_files('),
             expected='same get_sequence_files(...) call', found=(files_root, labels_root), stmt='cmd labels/files')
     gs = [x for x in calls_in(fc.node) if m.resolve_call(fc, x) == f'{CM}.get_sequence_files']
@@ -479,12 +835,12 @@ def check_query_paths(ctx):
     q = qq[0]
     qst = next(s for s in stmts_in(fc.node.body) if any(x is q for x in ast.walk(s)) and isinstance(s, ast.Assign))
     inp = get_kw(q, 'inputs')
-    iroot = align.source(m, fc, inp, qst)[0] if inp is not None else None
+    iroot = align.source(m, fc, *deref(fc, inp, qst))[0] if inp is not None else None
     sv = q.args[1]
     okq = isinstance(sv, ast.Name) and iroot == f'{sv.id}.ids'
     rep.add('A5', fc.site(q), 'signature-file channel: one input per stored id, in stored order, and the signatures of the same object are queried', okq, expected=f'inputs = [QueryInput(id) for id in {u(sv)}.ids]; query(db, {u(sv)}, ...)',
             found=(u(sv), iroot), stmt='sigfile labels')
-    idv = def_value(reaching_def(fc.node, inp.id, qst)) if isinstance(inp, ast.Name) else inp
+    idv = as_comprehension(fc, reaching_def(fc.node, inp.id, qst))[0] if isinstance(inp, ast.Name) and reaching_def(fc.node, inp.id, qst) not in (None, PARAM, AMBIGUOUS) else None if isinstance(inp, ast.Name) else inp
     ief = each_form(idv) if idv is not None else None
     okl = ief is not None and isinstance(ief[2], ast.Call) and m.resolve_call(fc, ief[2]) == 'gambit.query.QueryInput' and [u(a) for a in ief[2].args] == [u(ief[1])] and not ief[2].keywords
     rep.add('A5', fc.site(q), 'each label is the stored id itself', okl, expected='QueryInput(id) for every stored id', found=u(idv), stmt='sigfile label value')
@@ -507,18 +863,16 @@ def check_query_paths(ctx):
     rep.require(len(qc) == 1, 'query_parse: expected one query() call')
     qcall = qc[0]
     qs = next(s for s in fq.node.body if any(x is qcall for x in ast.walk(s)))
-    sig_root = align.source(m, fq, qcall.args[1], qs)[0]
+    sig_root = align.source(m, fq, *deref(fq, qcall.args[1], qs))[0]
     rep.add('A3', fq.site(qcall), 'query signatures are computed from the files in file order (aligned by C13)', sig_root == filesp, expected=f'aligned with {filesp}', found=sig_root, stmt='signatures aligned')
     inputs = get_kw(qcall, 'inputs')
-    idefs = [s for s in stmts_in(fq.node.body) if isinstance(s, ast.Assign) and u(s.targets[0]) == u(inputs)]
     roots = {}
     zipped = None
-    for s in idefs:
-        at = path_atoms(gmq[s])
+    for at, v, vs in value_cases(fq, gmq, inputs, qs):
         key = 'no labels' if ('is', 'None', 'file_labels') in at else 'labels' if ('isnot', 'None', 'file_labels') in at else '?'
-        roots[key] = align.source(m, fq, s.value, s)[0]
+        roots[key] = align.source(m, fq, *deref(fq, v, vs))[0]
         if key == 'labels':
-            zipped = s.value
+            zipped = v
     okr = roots.get('no labels') == filesp and roots.get('labels') == f'zip_strict(file_labels, {filesp})'
     rep.add('A3', fq.site(qcall), 'inputs are the files themselves, or labels STRICTLY zipped with the files (a length mismatch is an error, never a silent truncation)', okr, expected=f'{filesp} | zip_strict(file_labels, {filesp})',
             found=roots, stmt='inputs aligned')
@@ -531,9 +885,25 @@ def check_query_paths(ctx):
     rep.account_returns('A3', fq, [s for s in stmts_in(fq.node.body) if isinstance(s, ast.Return) and s.value is qcall], 'results object')
     fz = m.func('gambit.util.misc.zip_strict')
     rep.functions.add(fz.qualname)
-    zr = [s for s in stmts_in(fz.node.body) if isinstance(s, ast.Return)]
-    okz = any(u(r.value) == 'zip(*iterables, strict=True)' for r in zr) and any(u(r.value) == '_zip_strict(*iterables)' for r in zr)
-    rep.add('A3', fz.site(), 'zip_strict is the strict zip (raises on unequal lengths)', okz, expected='zip(*iterables, strict=True) / _zip_strict', found=[u(r.value) for r in zr], stmt='zip_strict')
+    zr = sorted({u(v) for _, v, _ in sym_returns(fz, 'zip_strict')})
+    rep.add('A3', fz.site(), 'zip_strict is the strict zip (raises on unequal lengths)', zr == ['_zip_strict(*iterables)', 'zip(*iterables, strict=True)'], expected='zip(*iterables, strict=True) / _zip_strict(*iterables)', found=zr, stmt='zip_strict')
+
+
+
+
+def filled_by_loop(rep, fi, name, init, ret, rule, stmt_key, desc):
+    """`name = []` followed by ONE loop that appends exactly one element per iteration: returns (iterable, target, element, loop),
+    the same triple a comprehension would give.  A conditional append, a second append, break / continue / return in the loop,
+    insert(), sort() ... are concrete losses of the one-to-one, in-order image (violations); any other use of the list (handed to a
+    callee, aliased) is outside the vocabulary."""
+    bad, loop, pos, call = append_fill(fi, name, init)
+    rep.add(rule, fi.site(loop if loop is not None else init), desc, not bad and loop is not None, expected=f'{name} = []; for ... : {name}.append(<one element>)', found=bad or (u(loop).splitlines()[0] if loop is not None else 'no append'), stmt=stmt_key)
+    rep.require(not bad and loop is not None, f'{fi.name}: {name} starts empty but is not filled by exactly one unconditional append per iteration of one loop')
+    # every other mention of the list must be its delivery to the results object
+    allowed = {id(init.targets[0]), id(call.func.value)} | {id(k.value) for k in (ret.value.keywords if isinstance(ret, ast.Return) and isinstance(ret.value, ast.Call) else []) if isinstance(k.value, ast.Name)}
+    other = [n for n in ast.walk(fi.node) if isinstance(n, ast.Name) and n.id == name and id(n) not in allowed]
+    rep.require(not other, f'{fi.name}: {name} is also used in a way the rule does not follow (line {getattr(other[0], "lineno", "?") if other else ""})')
+    return loop.iter, loop.target, append_elt(fi, loop, pos, call), loop
 
 
 def check_query(ctx):
@@ -547,12 +917,18 @@ def check_query(ctx):
     items = [s for s in stmts_in(fi.node.body) if isinstance(s, ast.Assign) and u(s.targets[0]) == items_name]
     rep.require(len(items) == 1, 'query: items is not assigned exactly once')
     lc = items[0].value
-    if is_filtered(lc):
-        rep.add('A4', fi.site(lc), 'one result item per input, in input order (no filter)', False, expected='one generator, no filter', found=u(lc)[:120], stmt='items enumerate')
-    ef = each_form(lc)
-    rep.require(ef is not None and (isinstance(lc, ast.ListComp) or (isinstance(lc, ast.Call) and u(lc.func) in ('list', 'tuple'))),
-                'query: items is not an elementwise list construction (list comprehension / list(map(...)))')
-    it, tgt, e = ef
+    at = items[0]          # the statement at which the iterated operands are evaluated
+    if (isinstance(lc, ast.List) and not lc.elts) or (isinstance(lc, ast.Call) and u(lc.func) == 'list' and not lc.args and not lc.keywords):
+        # the list starts empty and is filled by a loop: the same elementwise construction, spelled with append
+        it, tgt, e, at = filled_by_loop(rep, fi, items_name, items[0], ret0, 'A4', 'items enumerate', 'one result item per input, in input order (no filter)')
+        lc = at
+    else:
+        if is_filtered(lc):
+            rep.add('A4', fi.site(lc), 'one result item per input, in input order (no filter)', False, expected='one generator, no filter', found=u(lc)[:120], stmt='items enumerate')
+        ef = each_form(lc)
+        rep.require(ef is not None and (isinstance(lc, ast.ListComp) or (isinstance(lc, ast.Call) and u(lc.func) in ('list', 'tuple'))),
+                    'query: items is neither an elementwise list construction (list comprehension / list(map(...))) nor an empty list filled by one loop')
+        it, tgt, e = ef
     mats = [c for c in calls_in(fi.node) if m.resolve_call(fi, c) == 'gambit.metric.jaccarddist_matrix']
     rep.require(len(mats) == 1, 'query: expected one jaccarddist_matrix call')
     mc = mats[0]
@@ -560,7 +936,7 @@ def check_query(ctx):
     mvar = mst.targets[0].id if isinstance(mst, ast.Assign) and len(mst.targets) == 1 and isinstance(mst.targets[0], ast.Name) and mst.value is mc else None
 
     def is_matrix(x):
-        return mvar is not None and isinstance(x, ast.Name) and x.id == mvar and reaching_def(fi.node, mvar, items[0]) is mst
+        return mvar is not None and isinstance(x, ast.Name) and x.id == mvar and reaching_def(fi.node, mvar, at) is mst
 
     # how input k and matrix row k are brought together: a position counter (enumerate) indexing the matrix, or the matrix rows
     # iterated in lock step with the inputs (zip).  rows / inps: the expressions that denote "row k" / "input k" in the element.
@@ -607,23 +983,42 @@ def check_query(ctx):
     rep.add('A4', fi.site(lc), 'item k is built from row k of the distance matrix and input k (same position)', oke and src is not None and row_of(e.args[2]) and inp_of(e.args[3]),
             expected=f'get_result_item({dbp}, params, <row k of the matrix>, <input k>)', found=f'{u(e)} via {pairing}', stmt='row/input pairing')
     rep.require(src is not None, f'query: no operand of {u(it)} is the distance matrix')
-    src_root = align.source(m, fi, src, items[0])[0]
-    rows_root = align.source(m, fi, mc.args[0], mst)[0]
+    src_root = align.source(m, fi, *deref(fi, src, at))[0]
+    rows_root = align.source(m, fi, *deref(fi, mc.args[0], mst))[0]
     rep.add('A4', fi.site(mc), 'matrix rows follow the query signatures in the given order', rows_root == qp, expected=qp, found=rows_root, stmt='matrix rows')
     rep.add('A4', fi.site(mc), 'the rows classified are rows of that distance matrix', mvar is not None, expected='dmat = jaccarddist_matrix(...)', found=u(mst).splitlines()[0][:80], stmt='matrix variable')
     nq = Aff({f'len({qp})': 1})
 
+    def counter(s_):
+        """(length, first value, counter name, element) of a definition made from a running counter: a unit-step range(...), or
+        enumerate(<the queries>[, start]); None otherwise."""
+        f_ = each_form(as_comprehension(fi, s_)[0])
+        if f_ is None:
+            return None
+        it_, tg_, el_ = f_
+        if isinstance(tg_, ast.Name) and range_len(fi, it_, s_) is not None:
+            first = Aff.try_of(expand_locals(fi, it_.args[0], s_)) if len(it_.args) >= 2 else Aff(const=0)
+            return range_len(fi, it_, s_), first, tg_.id, el_
+        if isinstance(it_, ast.Call) and u(it_.func) == 'enumerate' and 1 <= len(it_.args) <= 2 and all(k.arg == 'start' for k in it_.keywords) and not any(isinstance(a, ast.Starred) for a in it_.args) \
+                and isinstance(tg_, ast.Tuple) and len(tg_.elts) == 2 and isinstance(tg_.elts[0], ast.Name):
+            st_ = it_.args[1] if len(it_.args) == 2 else get_kw(it_, 'start')
+            first = Aff.try_of(expand_locals(fi, st_, s_)) if st_ is not None else Aff(const=0)
+            root_, elt_ = elem_form(fi, it_.args[0], s_)
+            if root_ == qp:
+                return nq, first, tg_.elts[0].id, el_
+        return None
+
     def numbering(s_):
-        """Is this definition one label per query, made from a counter (range of exactly len(queries) values)?"""
-        f_ = each_form(s_.value)
-        return f_ is not None and range_len(fi, f_[0], s_) == nq
+        """Is this definition one label per query, made from a counter that takes exactly len(queries) values?"""
+        c_ = counter(s_)
+        return c_ is not None and c_[0] == nq
     if src_root == '?inputs':
         # assigned on both sides of `if inputs is not None`: every definition must be an order-preserving image of the
         # parameter, or the default numbering over the queries
         roots = set()
         for s_ in stmts_in(fi.node.body):
             if isinstance(s_, ast.Assign) and u(s_.targets[0]) == 'inputs':
-                roots.add('numbering of the queries' if numbering(s_) else align.source(m, fi, s_.value, s_)[0])
+                roots.add('numbering of the queries' if numbering(s_) else align.source(m, fi, *as_comprehension(fi, s_))[0])
         src_root = 'inputs' if roots == {'inputs', 'numbering of the queries'} else f'{sorted(roots)}'
     rep.add('A4', fi.site(lc), 'the iterated inputs are the caller inputs in order (converted one-to-one; progress wrapper transparent)', src_root == 'inputs', expected='inputs', found=src_root, stmt='inputs order')
     # len check (a local that only names len(queries) is the same quantity)
@@ -635,9 +1030,27 @@ def check_query(ctx):
     dflt = [s for s in stmts_in(fi.node.body) if isinstance(s, ast.Assign) and u(s.targets[0]) == 'inputs' and ('is', 'None', 'inputs') in path_atoms(gm[s])]
     okd = len(dflt) == 1 and numbering(dflt[0])
     rep.add('A4', fi.site(dflt[0] if dflt else None), 'without inputs, one numbered label per query', okd, expected=f'[QueryInput(str(i + 1)) for i in range(len({qp}))]', found=[u(d.value) for d in dflt], stmt='default labels')
+    if okd:
+        # the label of the k-th query (k = 0, 1, ...) is the text of k + 1: the counter's first value plus the offset applied to it is 1
+        _, first, cname, el = counter(dflt[0])
+        num = None
+        if isinstance(el, ast.Call) and m.resolve_call(fi, el) == 'gambit.query.QueryInput' and len(el.args) == 1 and not el.keywords:
+            a = el.args[0]
+            if isinstance(a, ast.Call) and u(a.func) == 'str' and len(a.args) == 1 and not a.keywords:
+                num = a.args[0]
+            elif isinstance(a, ast.JoinedStr) and len(a.values) == 1 and isinstance(a.values[0], ast.FormattedValue) and a.values[0].conversion == -1 and a.values[0].format_spec is None:
+                num = a.values[0].value
+        shown = Aff.try_of(expand_locals(fi, num, dflt[0])) if num is not None else None
+        rep.require(shown is not None and first is not None, f'query: default label `{u(el)}` is not QueryInput(str(<counter + offset>))')
+        rep.add('A4', fi.site(dflt[0]), 'the default label of the k-th query is its 1-based position', shown.sub(Aff({cname: 1})).add(first) == Aff(const=1), expected='"1", "2", ... in query order',
+                found=f'{u(el)} with {cname} starting at {first}', stmt='default label value')
     rep.account_returns('A4', fi, [fi.node.body[-1]] if isinstance(fi.node.body[-1], ast.Return) else [], 'results object')
     ql = [s for s in fi.node.body if isinstance(s, ast.Assign) and u(s.targets[0]) == qp]
     rep.add('A4', fi.site(ql[0] if ql else None), 'the query sequence is materialised once, order kept', len(ql) == 1 and u(ql[0].value) == f'list({qp})', expected=f'{qp} = list({qp})', found=[u(x.value) for x in ql], stmt='queries list')
+    # nothing reorders / removes / replaces elements of the list between its construction and its delivery
+    touched = [u(c)[:70] for c in calls_in(fi.node) if isinstance(c.func, ast.Attribute) and u(c.func.value) == items_name and c.func.attr in MUTATORS + ('extend', 'append') and not (c.func.attr == 'append' and lc is at and isinstance(at, ast.For))] \
+        + [f'{type(n.ctx).__name__.lower()} {u(n)}' for n in ast.walk(fi.node) if isinstance(n, ast.Subscript) and isinstance(n.ctx, (ast.Store, ast.Del)) and u(n.value) == items_name]
+    rep.add('A4', fi.site(items[0]), 'the items list is not modified after it is built', not touched, expected=f'no insert / sort / reverse / pop / remove / store on {items_name}', found=touched or 'none', stmt='items untouched')
     ret = fi.node.body[-1]
     okret = isinstance(ret, ast.Return) and isinstance(ret.value, ast.Call) and u(get_kw(ret.value, 'items')) == items_name and m.resolve_call(fi, ret.value) == 'gambit.query.QueryResults'
     rep.add('A4', fi.site(ret), 'the results carry the items list as built', okret, expected='QueryResults(items=items, ...)', found=u(ret)[:60], stmt='results items')
@@ -646,13 +1059,13 @@ def check_query(ctx):
     rep.add('A4', gri.site(ctor[0] if ctor else None), 'the item is labelled with the input it was given', len(ctor) == 1 and u(get_kw(ctor[0], 'input')) == gri.params()[3], expected='input=input', found=[u(get_kw(c, 'input')) for c in ctor], stmt='item label')
     fcv = m.func('gambit.query.QueryInput.convert')
     rep.functions.add(fcv.qualname)
-    gmv = guard_map(fcv.node)
     x = fcv.params()[1]
     conv = {}
-    for r in [s for s in stmts_in(fcv.node.body) if isinstance(s, ast.Return)]:
-        for a in path_atoms(gmv[r]):
-            if a[0] == 'true' and a[1].startswith(f'isinstance({x}, '):
-                conv[a[1][len(f'isinstance({x}, '):-1]] = u(r.value)
+    for guards, v, r in sym_returns(fcv, 'QueryInput.convert'):
+        for a in path_atoms(guards):
+            if r is not None and a[0] == 'true' and a[1].startswith(f'isinstance({x}, '):
+                conv.setdefault(a[1][len(f'isinstance({x}, '):-1], set()).add(u(v))
+    conv = {k: (next(iter(v)) if len(v) == 1 else sorted(v)) for k, v in conv.items()}
     rep.add('A4', fcv.site(), 'QueryInput.convert keeps an input as is, labels a string with itself and a file with its path', conv == {'QueryInput': x, 'str': f'QueryInput({x})', 'SequenceFile': f'QueryInput(str({x}.path), {x})'},
             expected='identity / QueryInput(x) / QueryInput(str(x.path), x)', found=conv, stmt='convert')
 
@@ -876,9 +1289,35 @@ def check_exporters(ctx):
     rep.add('A8', fe.site(site), 'CSV: one row per result item, in item order', ok and okh, expected=f'[header]; then self.get_row(item) for item in {res}.items, in order', found=shown, stmt='csv rows')
     fj = m.func('gambit.results.JSONResultsExporter._results_to_json')
     rep.functions.add(fj.qualname)
-    body = [s for s in fj.node.body]
-    okj = any(isinstance(s, ast.Assign) and u(s.value) == f'asdict({fj.params()[1]}, recurse=False)' for s in body) and not any(isinstance(s, ast.Delete) and 'items' in u(s) for s in body)
-    rep.add('A8', fj.site(), 'JSON: the items list is exported as is (no reordering / filtering)', okj, expected='asdict(results, recurse=False)', found=[u(s) for s in body], stmt='json items')
+    res = fj.params()[1]
+    # the mapping that is exported is attrs' asdict of the results object, not recursed into (the items stay the objects, in order),
+    # with the field `items` kept: a filter is evaluated for that field, later deletions / stores must not touch that key
+    ad = [c for c in calls_in(fj.node) if (m.resolve_call(fj, c) or u(c.func)).rsplit('.', 1)[-1] == 'asdict' and c.args and u(c.args[0]) == res]
+    rep.add('A8', fj.site(), 'JSON: the exported mapping is asdict(results) without recursion', len(ad) == 1 and is_const(get_kw(ad[0], 'recurse'), False), expected=f'asdict({res}, recurse=False)',
+            found=[u(c) for c in ad] or [u(s) for s in fj.node.body], stmt='json asdict')
+    rep.require(len(ad) == 1, '_results_to_json: expected one asdict(results, ...) call')
+    other = [k.arg for k in ad[0].keywords if k.arg not in ('recurse', 'filter')] + (['*args'] if len(ad[0].args) > 1 else [])
+    rep.require(not other, f'_results_to_json: asdict option {other} is outside the vocabulary')
+    keeps = True
+    flt = get_kw(ad[0], 'filter')
+    if flt is not None and not is_none(flt):
+        fa = flt.args if isinstance(flt, ast.Lambda) else None
+        rep.require(fa is not None and len(fa.args) == 2 and not (fa.posonlyargs or fa.kwonlyargs or fa.vararg or fa.kwarg), f'_results_to_json: filter `{u(flt)[:60]}` is not a two-argument lambda the rule can evaluate')
+        keeps = const_truth(flt.body, {f'{fa.args[0].arg}.name': 'items'})
+        rep.require(keeps is not None, f'_results_to_json: filter `{u(flt)[:60]}` cannot be evaluated for the field `items`')
+    touched = []
+    for n in ast.walk(fj.node):
+        if isinstance(n, ast.Subscript) and isinstance(n.ctx, (ast.Store, ast.Del)):
+            if not isinstance(n.slice, ast.Constant):
+                rep.require(False, f'_results_to_json: `{u(n)}` is stored / deleted under a key that is not a constant')
+            if n.slice.value == 'items':
+                touched.append(f'{type(n.ctx).__name__.lower()} {u(n)}')
+        if isinstance(n, ast.Call) and isinstance(n.func, ast.Attribute) and n.func.attr in ('pop', 'popitem', 'clear', 'update', 'setdefault', '__delitem__', '__setitem__') and not (n.args and isinstance(n.args[0], ast.Constant) and n.args[0].value != 'items'):
+            touched.append(u(n)[:60])
+    rets = [s_ for s_ in stmts_in(fj.node.body) if isinstance(s_, ast.Return)]
+    flows = bool(rets) and all(_resolve_local(fj, s_.value, s_) is ad[0] for s_ in rets)
+    rep.require(flows or touched or not keeps, '_results_to_json: the returned value is not the asdict(...) mapping itself')
+    rep.add('A8', fj.site(), 'JSON: the items list is exported as is (no reordering / filtering)', keeps and not touched, expected='field `items` kept and left untouched', found=touched or [u(ad[0])], stmt='json items')
 
 
 def check(ctx):
@@ -931,6 +1370,22 @@ _CSV_OLD = "\t\t\tfor item in results.items:\n\t\t\t\twriter.writerow(self.get_r
 _EXPORT_OLD = ("\t\twith maybe_open(file_or_path, 'w') as f:\n\t\t\twriter = csv.writer(f, **self.format_opts)\n\n\t\t\twriter.writerow(self.get_header())\n" + _CSV_OLD)
 _GEN_NEW = ("\t\twith maybe_open(file_or_path, 'w') as f:\n\t\t\tcsv.writer(f, **self.format_opts).writerows(self._iter_rows(results))\n\n"
             "\tdef _iter_rows(self, results):\n\t\tyield self.get_header()\n\t\tyield from map(self.get_row, @ITEMS@)\n")
+_IO = 'src/gambit/util/io.py'
+_ITEMS_W_OLD = "\t\t" + _ITEMS_OLD + "\n"
+_ITEMS_LOOP = "\t\titems = []\n\t\tfor input, dists in @IT@:\n\t\t\t@PRE@@APP@\n"
+_QP_OLD = ("\tif file_labels is None:\n\t\tinputs = files\n\telse:\n\t\tinputs = [QueryInput(label, file) for label, file in zip_strict(file_labels, files)]\n\n"
+           "\tquery_sigs = calc_file_signatures(db.signatures.kmerspec, files, **parse_kw)\n\n\treturn query(db, query_sigs, params, inputs=inputs, progress=pconf, **kw)\n")
+_QP_NEW = ("\tquery_sigs = calc_file_signatures(db.signatures.kmerspec, files, **parse_kw)\n\n"
+           "\treturn query(db, query_sigs, params, inputs=@V@, progress=pconf, **kw)\n")
+_ZS_OLD = "\tif sys.version_info >= (3, 10):\n\t\t# Version 3.10+ has strict parameter for builtin zip()\n\t\treturn zip(*iterables, strict=True)\n\telse:\n\t\treturn _zip_strict(*iterables)\n"
+_GSF_OLD = ("\tif explicit:\n\t\tpaths = list(map(Path, explicit))\n\t\tpaths_str = list(map(str, paths))\n\n\telif listfile is not None:\n\t\tlines = list(read_lines(listfile, skip_empty=True))\n"
+            "\t\tpaths = [Path(listfile_dir) / line for line in lines]\n\t\tpaths_str = lines\n\n\telse:\n\t\treturn None, None\n\n"
+            "\tfiles = SequenceFile.from_paths(paths, 'fasta', 'auto')\n\tids = [get_file_id(f, strip_dir, strip_ext) for f in paths_str]\n")
+_GSF_PAIRS = ("\tif explicit:\n\t\tnamed_paths = [(str(path), path) for path in map(Path, explicit)]\n\n\telif listfile is not None:\n\t\tlines = list(read_lines(listfile, skip_empty=True))\n"
+              "\t\tnamed_paths = [(line, @LP@) for line in lines]\n\n\telse:\n\t\treturn None, None\n\n"
+              "\tfiles = SequenceFile.from_paths([@FILES@], 'fasta', 'auto')\n\tids = [get_file_id(name, strip_dir, strip_ext) for name, path in @IDS@]\n")
+_RL_OLD = "\t\t\tif not (skip_empty and not line):\n\t\t\t\tyield line\n"
+_JS_OLD = "\t\tdata = asdict(results, recurse=False)\n\t\tdel data['params']  # Parameters not currently exposed thru CLI, so omit for now.\n\t\treturn data\n"
 VARIANTS = [
     V('zip for zip_strict', 'B', _Q, "for label, file in zip_strict(file_labels, files)]", "for label, file in zip(file_labels, files)]", 'A3'),
     V('files sorted in query_parse', 'B', _Q, "\tquery_sigs = calc_file_signatures(db.signatures.kmerspec, files, **parse_kw)", "\tquery_sigs = calc_file_signatures(db.signatures.kmerspec, sorted(files), **parse_kw)", 'A3'),
@@ -1025,4 +1480,66 @@ VARIANTS = [
     V('generator method yields every item row twice', 'B', _R, _EXPORT_OLD, _GEN_NEW.replace("\t\tyield from map(self.get_row, @ITEMS@)\n", "\t\tfor item in results.items:\n\t\t\tyield self.get_row(item)\n\t\tyield from map(self.get_row, results.items)\n"), 'A8'),
     V('E: row bound to a local before it is written', 'E', _R, "\t\t\t\twriter.writerow(self.get_row(item))\n", "\t\t\t\trow = self.get_row(item)\n\t\t\t\twriter.writerow(row)\n"),
     V('row of the first item written for every item', 'B', _R, "\t\t\t\twriter.writerow(self.get_row(item))\n", "\t\t\t\trow = self.get_row(results.items[0])\n\t\t\t\twriter.writerow(row)\n", 'A8'),
+    # ---- second pass: append loops, (name, path) pairs, conditional expressions, read_lines body, default label value, JSON filter
+    V('E: items filled by an append loop over zip_strict(inputs, rows)', 'E', _Q, _ITEMS_W_OLD, _ITEMS_LOOP.replace('@IT@', 'zip_strict(inputs_iter, dmat)').replace('@PRE@', '').replace('@APP@', 'items.append(get_result_item(db, params, dists, input))')),
+    V('E: append loop, row result bound to a local first', 'E', _Q, _ITEMS_W_OLD, _ITEMS_LOOP.replace('@IT@', 'zip(inputs_iter, dmat)').replace('@PRE@', 'item = get_result_item(db, params, dists, input)\n\t\t\t').replace('@APP@', 'items.append(item)')),
+    V('append loop pairs the inputs with the reversed rows', 'B', _Q, _ITEMS_W_OLD, _ITEMS_LOOP.replace('@IT@', 'zip(inputs_iter, dmat[::-1])').replace('@PRE@', '').replace('@APP@', 'items.append(get_result_item(db, params, dists, input))'), 'A4'),
+    V('append loop appends only under a condition (rows dropped)', 'B', _Q, _ITEMS_W_OLD, _ITEMS_LOOP.replace('@IT@', 'zip(inputs_iter, dmat)').replace('@PRE@', 'if input.file is not None:\n\t\t\t\t').replace('@APP@', 'items.append(get_result_item(db, params, dists, input))'), 'A4'),
+    V('append loop skips iterations with continue', 'B', _Q, _ITEMS_W_OLD, _ITEMS_LOOP.replace('@IT@', 'zip(inputs_iter, dmat)').replace('@PRE@', 'if not input.label:\n\t\t\t\tcontinue\n\t\t\t').replace('@APP@', 'items.append(get_result_item(db, params, dists, input))'), 'A4'),
+    V('loop inserts at the front (items in reverse order)', 'B', _Q, _ITEMS_W_OLD, _ITEMS_LOOP.replace('@IT@', 'zip(inputs_iter, dmat)').replace('@PRE@', '').replace('@APP@', 'items.insert(0, get_result_item(db, params, dists, input))'), 'A4'),
+    V('append loop, list sorted afterwards', 'B', _Q, _ITEMS_W_OLD, _ITEMS_LOOP.replace('@IT@', 'zip(inputs_iter, dmat)').replace('@PRE@', '').replace('@APP@', 'items.append(get_result_item(db, params, dists, input))') + "\titems.sort(key=lambda it: it.input.label)\n", 'A4'),
+    # default label value
+    V('default labels start at 0', 'B', _Q, "QueryInput(str(i + 1)) for i in range(len(queries))", "QueryInput(str(i)) for i in range(len(queries))", 'A4'),
+    V('default labels shifted the wrong way', 'B', _Q, "QueryInput(str(i + 1)) for i in range(len(queries))", "QueryInput(str(i - 1)) for i in range(len(queries))", 'A4'),
+    V('E: default labels from enumerate(queries, 1)', 'E', _Q, "QueryInput(str(i + 1)) for i in range(len(queries))", "QueryInput(str(n)) for n, _ in enumerate(queries, 1)"),
+    V('default labels from enumerate(queries) without the start (0-based)', 'B', _Q, "QueryInput(str(i + 1)) for i in range(len(queries))", "QueryInput(str(n)) for n, _ in enumerate(queries)", 'A4'),
+    V('E: default labels through an f-string over range(1, n + 1)', 'E', _Q, "QueryInput(str(i + 1)) for i in range(len(queries))", "QueryInput(f'{i}') for i in range(1, len(queries) + 1)"),
+    V('range(1, n + 1) and the offset applied again', 'B', _Q, "QueryInput(str(i + 1)) for i in range(len(queries))", "QueryInput(str(i + 1)) for i in range(1, len(queries) + 1)", 'A4'),
+    V('E: default labels filled by an append loop', 'E', _Q, "\t\tinputs = [QueryInput(str(i + 1)) for i in range(len(queries))]\n", "\t\tinputs = []\n\t\tfor i in range(len(queries)):\n\t\t\tinputs.append(QueryInput(str(i + 1)))\n"),
+    V('default labels appended for every second query only', 'B', _Q, "\t\tinputs = [QueryInput(str(i + 1)) for i in range(len(queries))]\n", "\t\tinputs = []\n\t\tfor i in range(len(queries)):\n\t\t\tif i % 2:\n\t\t\t\tinputs.append(QueryInput(str(i + 1)))\n", 'A4'),
+    # conditional expression instead of if / else
+    V('E: query_parse inputs as a conditional expression inside the call', 'E', _Q, _QP_OLD, _QP_NEW.replace('@V@', "files if file_labels is None else [QueryInput(label, file) for label, file in zip_strict(file_labels, files)]")),
+    V('conditional-expression inputs zipped non-strictly', 'B', _Q, _QP_OLD, _QP_NEW.replace('@V@', "files if file_labels is None else [QueryInput(label, file) for label, file in zip(file_labels, files)]"), 'A3'),
+    V('conditional-expression inputs with the arms exchanged', 'B', _Q, _QP_OLD, _QP_NEW.replace('@V@', "[QueryInput(label, file) for label, file in zip_strict(file_labels, files)] if file_labels is None else files"), 'A3'),
+    V('E: zip_strict returns through one conditional expression', 'E', 'src/gambit/util/misc.py', _ZS_OLD, "\treturn zip(*iterables, strict=True) if sys.version_info >= (3, 10) else _zip_strict(*iterables)\n"),
+    V('zip_strict conditional expression falls back to the plain zip', 'B', 'src/gambit/util/misc.py', _ZS_OLD, "\treturn zip(*iterables, strict=True) if sys.version_info >= (3, 10) else zip(*iterables)\n", 'A3'),
+    V('E: convert binds the path label to a local first', 'E', _Q, "\t\t\treturn QueryInput(str(x.path), x)\n", "\t\t\tlabel = str(x.path)\n\t\t\treturn QueryInput(label, x)\n"),
+    V('convert labels a file with its repr, bound to a local', 'B', _Q, "\t\t\treturn QueryInput(str(x.path), x)\n", "\t\t\tlabel = str(x)\n\t\t\treturn QueryInput(label, x)\n", 'A4'),
+    # get_sequence_files: (name, path) pairs, inline return, append loops
+    V('E: get_sequence_files through (name, path) pairs', 'E', _C, _GSF_OLD, _GSF_PAIRS.replace('@LP@', 'Path(listfile_dir) / line').replace('@FILES@', 'path for name, path in named_paths').replace('@IDS@', 'named_paths')),
+    V('pairs: list-file path without the base directory', 'B', _C, _GSF_OLD, _GSF_PAIRS.replace('@LP@', 'Path(line)').replace('@FILES@', 'path for name, path in named_paths').replace('@IDS@', 'named_paths'), 'A1'),
+    V('pairs: files built from the name component (base directory lost)', 'B', _C, _GSF_OLD, _GSF_PAIRS.replace('@LP@', 'Path(listfile_dir) / line').replace('@FILES@', 'name for name, path in named_paths').replace('@IDS@', 'named_paths'), 'A1'),
+    V('pairs: ids taken from the sorted pairs', 'B', _C, _GSF_OLD, _GSF_PAIRS.replace('@LP@', 'Path(listfile_dir) / line').replace('@FILES@', 'path for name, path in named_paths').replace('@IDS@', 'sorted(named_paths)'), 'A1'),
+    V('E: ids and files built inline in the return statement', 'E', _C, "\tfiles = SequenceFile.from_paths(paths, 'fasta', 'auto')\n\tids = [get_file_id(f, strip_dir, strip_ext) for f in paths_str]\n\n\treturn ids, files\n",
+      "\treturn [get_file_id(f, strip_dir, strip_ext) for f in paths_str], SequenceFile.from_paths(paths, 'fasta', 'auto')\n"),
+    V('inline return with the ids of the reversed path strings', 'B', _C, "\tfiles = SequenceFile.from_paths(paths, 'fasta', 'auto')\n\tids = [get_file_id(f, strip_dir, strip_ext) for f in paths_str]\n\n\treturn ids, files\n",
+      "\treturn [get_file_id(f, strip_dir, strip_ext) for f in paths_str[::-1]], SequenceFile.from_paths(paths, 'fasta', 'auto')\n", 'A1'),
+    V('E: ids filled by an append loop', 'E', _C, "\tids = [get_file_id(f, strip_dir, strip_ext) for f in paths_str]\n", "\tids = []\n\tfor f in paths_str:\n\t\tids.append(get_file_id(f, strip_dir, strip_ext))\n"),
+    V('ids append loop skips duplicates (labels and files no longer aligned)', 'B', _C, "\tids = [get_file_id(f, strip_dir, strip_ext) for f in paths_str]\n",
+      "\tids = []\n\tfor f in paths_str:\n\t\tif get_file_id(f, strip_dir, strip_ext) not in ids:\n\t\t\tids.append(get_file_id(f, strip_dir, strip_ext))\n", 'A1'),
+    V('every label derived from the first path', 'B', _C, "\tids = [get_file_id(f, strip_dir, strip_ext) for f in paths_str]\n", "\tids = [get_file_id(paths_str[0], strip_dir, strip_ext) for f in paths_str]\n", 'A1'),
+    V('append loop that never appends (no items)', 'B', _Q, _ITEMS_W_OLD, _ITEMS_LOOP.replace('@IT@', 'zip(inputs_iter, dmat)').replace('@PRE@', '').replace('@APP@', 'get_result_item(db, params, dists, input)'), 'A4'),
+    # read_lines body
+    V('E: read_lines skips with a continue guard', 'E', _IO, _RL_OLD, "\t\t\tif skip_empty and not line:\n\t\t\t\tcontinue\n\t\t\tyield line\n"),
+    V('E: read_lines keeps a line that is non-empty or not to be skipped', 'E', _IO, _RL_OLD, "\t\t\tif line or not skip_empty:\n\t\t\t\tyield line\n"),
+    V('E: read_lines tests emptiness by length', 'E', _IO, _RL_OLD, "\t\t\tif skip_empty and len(line) == 0:\n\t\t\t\tcontinue\n\t\t\tyield line\n"),
+    V('read_lines yields only what it should skip', 'B', _IO, _RL_OLD, "\t\t\tif skip_empty and not line:\n\t\t\t\tyield line\n", 'A1'),
+    V('read_lines drops a line when skip_empty OR empty', 'B', _IO, _RL_OLD, "\t\t\tif not (skip_empty or not line):\n\t\t\t\tyield line\n", 'A1'),
+    V('read_lines continue guard without the emptiness test (every line dropped when skip_empty)', 'B', _IO, _RL_OLD, "\t\t\tif skip_empty:\n\t\t\t\tcontinue\n\t\t\tyield line\n", 'A1'),
+    V('read_lines strips only when strip is false', 'B', _IO, "\t\t\tline = line.strip() if strip else line.rstrip('\\n')\n", "\t\t\tline = line.rstrip('\\n') if strip else line.strip()\n", 'A1'),
+    V('read_lines yields the raw line (newline kept)', 'B', _IO, "\t\t\tline = line.strip() if strip else line.rstrip('\\n')\n", "\t\t\tstripped = line.strip() if strip else line.rstrip('\\n')\n", 'A1',
+      also=((_IO, _RL_OLD, "\t\t\tif not (skip_empty and not stripped):\n\t\t\t\tyield line\n"),)),
+    V('read_lines tests emptiness before stripping (blank lines never skipped)', 'B', _IO, "\t\t\tline = line.strip() if strip else line.rstrip('\\n')\n" + _RL_OLD,
+      "\t\t\tif skip_empty and not line:\n\t\t\t\tcontinue\n\t\t\tyield line.strip() if strip else line.rstrip('\\n')\n", 'A1'),
+    V('read_lines stops at the first blank line', 'B', _IO, _RL_OLD, "\t\t\tif skip_empty and not line:\n\t\t\t\tbreak\n\t\t\tyield line\n", 'A1'),
+    V('read_lines default strip=False (list-file names keep surrounding whitespace)', 'B', _IO, "strip: bool=True, skip_empty: bool=False", "strip: bool=False, skip_empty: bool=False", 'A1'),
+    V('read_lines default skip_empty=True', 'B', _IO, "strip: bool=True, skip_empty: bool=False", "strip: bool=True, skip_empty: bool=True", 'A1'),
+    V('E: list-file call passes strip=True explicitly', 'E', _C, "read_lines(listfile, skip_empty=True)", "read_lines(listfile, strip=True, skip_empty=True)"),
+    V('list-file call reads the lines unstripped', 'B', _C, "read_lines(listfile, skip_empty=True)", "read_lines(listfile, strip=False, skip_empty=True)", 'A1'),
+    # JSON exporter
+    V('E: JSON mapping through asdict(filter=...) dropping params', 'E', _R, _JS_OLD, "\t\treturn asdict(results, recurse=False, filter=lambda field, value: field.name != 'params')\n"),
+    V('asdict filter also drops the items', 'B', _R, _JS_OLD, "\t\treturn asdict(results, recurse=False, filter=lambda field, value: field.name not in ('params', 'items'))\n", 'A8'),
+    V('asdict filter keeps only the parameters', 'B', _R, _JS_OLD, "\t\treturn asdict(results, recurse=False, filter=lambda field, value: field.name == 'params')\n", 'A8'),
+    V('JSON items replaced by a sorted copy', 'B', _R, "\t\tdel data['params']  # Parameters not currently exposed thru CLI, so omit for now.\n", "\t\tdel data['params']\n\t\tdata['items'] = sorted(data['items'], key=lambda it: it.input.label)\n", 'A8'),
+    V('JSON mapping recursed into (items no longer exported as the objects they are)', 'B', _R, "\t\tdata = asdict(results, recurse=False)\n", "\t\tdata = asdict(results, recurse=True)\n", 'A8'),
 ]
